@@ -326,7 +326,7 @@ struct Gen {
   // ---- data -----------------------------------------------------------------------------------------------
   std::vector<int> keysOf(const std::string& base) const { const Item* it = liveByAlias(base); return it ? it->keys : std::vector<int>{}; }
   int unusedKey(const std::vector<int>& keys) {
-    for (int k = 1 + c.ipick(0, 2);; ++k) if (std::find(keys.begin(), keys.end(), k) == keys.end()) return k;
+    for (int k = 1 + c.ipick(-3, 2);; ++k) if (std::find(keys.begin(), keys.end(), k) == keys.end()) return k;
   }
   DV dataOfSort(const std::string& sort) {
     const auto p = split(sort, ':');
